@@ -30,6 +30,7 @@ def run(ctx):
     ctx.do(H.rule_h2)
     ctx.do(D.rule_t2)
     ctx.do(NP.rule_np2)
+    ctx.do(D.rule_lk2, [HYP, "geometry_tools/projective.py", "geometry_tools/complex_projective.py", "geometry_tools/coxeter.py", CORE])
     ctx.do(CA.rule_query_purity, "CoxeterGroup", ["bilinear_form", "cartan_matrix", "tits_vinberg_rep"])
     ctx.do(D.rule_t3, [CORE, HYP, 'geometry_tools/projective.py'])
     ctx.do(D.rule_lk1, [HYP, 'geometry_tools/projective.py', 'geometry_tools/complex_projective.py'])
